@@ -708,7 +708,12 @@ func genProgram(rng *rand.Rand, name string) *Program {
 		fc = 250 + rng.Intn(60)
 		p.FlagCount = fc
 		nflags = 8 + fc
-		wide := []int{8, 9, 255, 256, 257, 260, 262, 263, 264, 265, 8 + fc - 1}
+		wide := []int{8, 9, 8 + fc - 1}
+		for _, f := range []int{255, 256, 257, 260, 262, 263, 264, 265} {
+			if f < nflags { // flags are in range (C08's hypothesis on the application)
+				wide = append(wide, f)
+			}
+		}
 		clientFlag = func() int { return wide[rng.Intn(len(wide))] }
 		anyFlag = func() int {
 			if rng.Intn(3) == 0 {
